@@ -8,6 +8,7 @@ import (
 	"github.com/gr33nbl00d/caddy-revocation-validator/core"
 	"github.com/gr33nbl00d/caddy-revocation-validator/core/asn1parser"
 	"github.com/gr33nbl00d/caddy-revocation-validator/core/utils"
+	"github.com/gr33nbl00d/caddy-revocation-validator/core/verifhook"
 	"github.com/gr33nbl00d/caddy-revocation-validator/crl/crlloader"
 	"github.com/gr33nbl00d/caddy-revocation-validator/crl/crlreader"
 	"github.com/gr33nbl00d/caddy-revocation-validator/crl/crlstore"
@@ -56,6 +57,7 @@ func NewCRLRepository(logger *zap.Logger, crlConfig *config.CRLConfig, storeType
 }
 
 func (R *Repository) AddCRL(crlLocations *core.CRLLocations, chains *core.CertificateChains) (bool, error) {
+	verifhook.Hit("repo.addcrl.entry")
 	loader, err := R.crlLoaderFactory.CreatePreferredCrlLoader(crlLocations, R.logger)
 	if err != nil {
 		return false, err
@@ -137,11 +139,13 @@ func (R *Repository) loadCRL(entry *Entry, chains *core.CertificateChains) (err 
 	if err != nil {
 		return err
 	}
+	verifhook.Hit("repo.load.downloaded")
 	var processor = crlstore.CRLPersisterProcessor{CRLStore: entry.CRLStore}
 	result, err := R.crlReader.ReadCRL(processor, tempFileName)
 	if err != nil {
 		return err
 	}
+	verifhook.Hit("repo.load.parsed")
 	if R.crlConfig.SignatureValidationModeParsed != config.SignatureValidationModeNone {
 		signatureCert, err := verifyCRLSignature(result, chains)
 		if err != nil {
@@ -160,6 +164,7 @@ func (R *Repository) loadCRL(entry *Entry, chains *core.CertificateChains) (err 
 	}
 	entry.Loaded = true
 	entry.Chains = nil
+	verifhook.Hit("repo.load.accepted")
 	return nil
 }
 
@@ -229,6 +234,7 @@ func (R *Repository) checkCrl(certificate *x509.Certificate, identifier string) 
 	if repositoryEntry != nil {
 		repositoryEntry.entryLock.RLock()
 		defer repositoryEntry.entryLock.RUnlock()
+		verifhook.Hit("repo.check.rlocked")
 		if repositoryEntry.Loaded {
 			status, err := repositoryEntry.CRLStore.GetCertRevocationStatus(issuerRDNSequence, certificate.SerialNumber)
 			if err != nil {
@@ -313,6 +319,7 @@ func (R *Repository) updateCrlEntry(entry *Entry, newChains *core.CertificateCha
 	if err != nil {
 		return err
 	}
+	verifhook.Hit("repo.update.downloaded")
 	identifier, err := loader.GetCRLLocationIdentifier()
 	if err != nil {
 		return err
@@ -333,6 +340,7 @@ func (R *Repository) updateCrlEntry(entry *Entry, newChains *core.CertificateCha
 	if err != nil {
 		return err
 	}
+	verifhook.Hit("repo.update.staged")
 	R.logger.Info("verify crl signature of crl " + entry.CRLLoader.GetDescription())
 	signatureCert, err := verifyCRLSignature(result, chains)
 	if err != nil {
@@ -342,12 +350,15 @@ func (R *Repository) updateCrlEntry(entry *Entry, newChains *core.CertificateCha
 		R.resetLastSignatureVerifyFailed(entry)
 	}
 
+	verifhook.Hit("repo.update.verified")
 	err = processor.UpdateSignatureCertificate(signatureCert)
 	if err != nil {
 		return err
 	}
 
+	verifhook.Hit("repo.update.before_swap")
 	err = R.updateEntry(entry, err, store)
+	verifhook.Hit("repo.update.after_swap")
 	if err != nil {
 		R.deleteEntrySync(identifier)
 		return err
@@ -388,6 +399,7 @@ func (R *Repository) getCrlUpdateInformation(entry *Entry, err error) (*core.CRL
 func (R *Repository) updateEntry(entry *Entry, err error, store crlstore.CRLStore) error {
 	entry.entryLock.Lock()
 	defer entry.entryLock.Unlock()
+	verifhook.Hit("repo.swap.locked")
 	err = entry.CRLStore.Update(store)
 	if err != nil {
 		entry.CRLStore.Close()
